@@ -10,7 +10,7 @@ from .kd_speech_ccommands_v2_norm import KDSpeechCommandsV2Norm
 
 def string_to_norm(name):
     assert isinstance(name, str)
-    name = name.lower().replace("_")
+    name = name.lower().replace("_", "")
     if name == "cifar10":
         return KDCifar10Norm()
     if name == "cifar100":
